@@ -181,6 +181,23 @@ func (bq *InMemoryBuildQueue) verifWalkInvocation(i *invocation, scq *sizeClassQ
 		vi.ExecutingWorkers = append(vi.ExecutingWorkers, fmt.Sprintf("%s=%d", w.workerKey, n))
 	}
 	sort.Strings(vi.ExecutingWorkers)
+	// Binary heap order: no element is Less than its parent. (container/heap
+	// maintains this as long as every key change is followed by heap.Fix.)
+	for idx := 1; idx < len(i.queuedOperations); idx++ {
+		if i.queuedOperations.Less(idx, (idx-1)/2) {
+			*errs = append(*errs, fmt.Sprintf("heap-order: %s: queuedOperations[%d] precedes its parent", where, idx))
+		}
+	}
+	for idx := 1; idx < len(i.queuedChildren); idx++ {
+		if i.queuedChildren.Less(idx, (idx-1)/2) {
+			*errs = append(*errs, fmt.Sprintf("heap-order: %s: queuedChildren[%d] precedes its parent", where, idx))
+		}
+	}
+	for idx := 1; idx < len(i.idleSynchronizingWorkersChildren); idx++ {
+		if i.idleSynchronizingWorkersChildren.Less(idx, (idx-1)/2) {
+			*errs = append(*errs, fmt.Sprintf("heap-order: %s: idleSynchronizingWorkersChildren[%d] precedes its parent", where, idx))
+		}
+	}
 	for idx, e := range i.idleSynchronizingWorkers {
 		vi.IdleSyncWorkers = append(vi.IdleSyncWorkers, string(e.worker.workerKey))
 		if e.worker.listIndex != idx {
